@@ -137,6 +137,12 @@ func VerifyLightClientAttack(e *types.LightClientAttackEvidence, commonHeader, t
 		return fmt.Errorf("invalid commit from conflicting block: %w", err)
 	}
 
+	// The byzantine validators are derived from all the signatures of the conflicting commit, whereas the two
+	// checks above stop at the first signatures that carry enough voting power (and skip votes for nil)
+	if err := verifyAllSignatures(trustedHeader.ChainID, e.ConflictingBlock); err != nil {
+		return fmt.Errorf("invalid commit from conflicting block: %w", err)
+	}
+
 	// Assert the correct amount of voting power of the validator set
 	if evTotal, valsTotal := e.TotalVotingPower, commonVals.TotalVotingPower(); evTotal != valsTotal {
 		return fmt.Errorf("total voting power from the evidence and our validator set does not match (%d != %d)",
@@ -156,6 +162,33 @@ func VerifyLightClientAttack(e *types.LightClientAttackEvidence, commonHeader, t
 	}
 
 	return validateABCIEvidence(e, commonVals, trustedHeader)
+}
+
+// verifyAllSignatures verifies every signature in the commit of the conflicting block against the validator of
+// the conflicting validator set at the same index and makes sure that the signature is attributed to the address of
+// the key that produced it.
+//
+// CONTRACT: the commit has as many signatures as the validator set has validators
+func verifyAllSignatures(chainID string, lb *types.LightBlock) error {
+	for idx, commitSig := range lb.Commit.Signatures {
+		if commitSig.Absent() {
+			continue
+		}
+		val := lb.ValidatorSet.Validators[idx]
+		if !bytes.Equal(val.PubKey.Address(), val.Address) {
+			return fmt.Errorf("validator #%d has address %X but its public key has address %X",
+				idx, val.Address, val.PubKey.Address())
+		}
+		if !bytes.Equal(commitSig.ValidatorAddress, val.Address) {
+			return fmt.Errorf("signature #%d is attributed to %X but validator #%d is %X",
+				idx, commitSig.ValidatorAddress, idx, val.Address)
+		}
+		voteSignBytes := lb.Commit.VoteSignBytes(chainID, int32(idx))
+		if !val.PubKey.VerifySignature(voteSignBytes, commitSig.Signature) {
+			return fmt.Errorf("wrong signature (#%d): %X", idx, commitSig.Signature)
+		}
+	}
+	return nil
 }
 
 // VerifyDuplicateVote verifies DuplicateVoteEvidence against the state of full node. This involves the
